@@ -497,6 +497,7 @@ def run(ctx, col: Collector):
             raise AnchorMissing('PyDBMLParser.parse_blueprint / build_database')
         from ..inline import inlined_info
         pb = inlined_info(idx, pb)
+        bd = inlined_info(idx, bd, 3, keep={'build', 'add'})
         # classes produced by each top-level alternative
         kinds: Dict[str, Set[str]] = {}
         for flag in (False, True):
@@ -533,37 +534,26 @@ def run(ctx, col: Collector):
                 col.check(len(classes) == 1, 'C01-wiring', tag + ':produces', f'produces {sorted(classes)}',
                           f'top-level alternative `{alt.var}` produces {sorted(classes) or "no blueprint"}', node=_N(alt), file=alt.file)
         produced = set().union(*kinds.values()) if kinds else set()
-        # parse_blueprint: isinstance chain -> collection
+        # parse_blueprint specialised per produced class (rules/wiring.py): where a blueprint of that class is filed
+        from .wiring import kind_facts
         stores: Dict[str, Tuple[str, str]] = {}
-        var = None
-        for st in pb.node.body:
-            if isinstance(st, ast.If):
-                cur: Optional[ast.If] = st
-                while cur is not None:
-                    t = cur.test
-                    if isinstance(t, ast.Call) and norm(t.func) == 'isinstance' and len(t.args) == 2:
-                        var = norm(t.args[0])
-                        cls = norm(t.args[1])
-                        how = None
-                        for s in cur.body:
-                            for c in ast.walk(s):
-                                if isinstance(c, ast.Call) and isinstance(c.func, ast.Attribute) and c.func.attr in ('append', 'insert', 'extend', 'add') \
-                                        and c.args and _rn(pb.node, c.args[-1]) == _rn(pb.node, ast.parse(var, mode='eval').body) and norm(c.func.value).startswith('self.'):
-                                    how = how or (norm(c.func.value), c.func.attr)
-                                if isinstance(c, ast.Assign) and _rn(pb.node, c.value) == _rn(pb.node, ast.parse(var, mode='eval').body) and norm(c.targets[0]).startswith('self.'):
-                                    how = how or (norm(c.targets[0]), 'assign')
-                        if how:
-                            stores[cls] = how
-                    nxt = cur.orelse
-                    cur = nxt[0] if len(nxt) == 1 and isinstance(nxt[0], ast.If) else None
-        pb_names = {x.id for x in ast.walk(pb.node) if isinstance(x, ast.Name)}
         for cls in sorted(produced):
-            if cls in stores:
-                col.ok('C01-wiring', f'parse_blueprint:{cls}', f'{cls} is filed under {stores[cls][0]}', node=pb.node, file=pb.file)
-            elif cls in pb_names:
-                col.unk('C01-wiring', f'parse_blueprint:{cls}', f'parse_blueprint mentions {cls} but does not store it in a recognised form', node=pb.node, file=pb.file)
+            kf = kind_facts(ctx, cls)
+            own = [s_ for s_ in kf.stores if s_[2] == 'self']
+            cons = f'parse_blueprint:{cls}'
+            if own and any(not s_[4] for s_ in own):
+                s0 = next(s_ for s_ in own if not s_[4])
+                stores[cls] = (s0[0], s0[1])
+                col.ok('C01-wiring', cons, f'{cls} is filed under {s0[0]}', node=pb.node, file=pb.file)
+            elif own:
+                stores[cls] = (own[0][0], own[0][1])
+                col.unk('C01-wiring', cons, f'a {cls} is stored in {own[0][0]} only under {own[0][4]}', node=pb.node, file=pb.file)
+            elif kf.undecided or kf.opaque:
+                col.unk('C01-wiring', cons, f'parse_blueprint specialised to {cls} does not store the blueprint in a recognised form '
+                        f'({"dispatch undecided" if kf.undecided else kf.opaque[0]})', node=pb.node, file=pb.file)
             else:
-                col.bad('C01-wiring', f'parse_blueprint:{cls}', f'parse_blueprint never mentions {cls}: every declared element of that kind is dropped', node=pb.node, file=pb.file)
+                col.bad('C01-wiring', cons, f'parse_blueprint specialised to {cls} (dispatch resolved, helpers inlined) never stores the blueprint'
+                        f'{" and raises" if kf.raises_unconditionally else ""}: every declared element of that kind is dropped', node=pb.node, file=pb.file)
             if cls in stores:
                 col.check(stores[cls][1] in ('append', 'assign'), 'C01-wiring', f'parse_blueprint:{cls}:order',
                           'stored in source order', f'{cls} blueprints are stored with `{stores[cls][1]}`: source order is not kept',
